@@ -20,8 +20,8 @@ ID = "C17"
 CASES = {"quick": 640, "thorough": 8000}
 FLOOR = {"quick": 450, "thorough": 6000}
 FLOOR_COUNTERS = {
-    "quick": {"queries_sharing_a_coordinate": 150, "bandwidths_judged": 3000, "queries_judged": 2500, "assignments_judged": 30000, "degenerate_cloud_models": 80, "periodic_models": 100, "relation_pairs": 900, "oas_calls_seen": 3000, "estimators_with_a_past": 120, "metric_given_explicitly": 200, "models_with_zero_weights": 40},
-    "thorough": {"queries_sharing_a_coordinate": 2000, "bandwidths_judged": 45000, "queries_judged": 35000, "assignments_judged": 450000, "degenerate_cloud_models": 1000, "periodic_models": 1300, "relation_pairs": 12000, "oas_calls_seen": 45000, "estimators_with_a_past": 1800, "metric_given_explicitly": 2500, "models_with_zero_weights": 500},
+    "quick": {"queries_sharing_a_coordinate": 150, "bandwidths_judged": 3000, "queries_judged": 2500, "assignments_judged": 30000, "degenerate_cloud_models": 80, "periodic_models": 100, "relation_pairs": 900, "oas_calls_seen": 3000, "estimators_with_a_past": 120, "metric_given_explicitly": 200, "models_with_zero_weights": 40, "evaluations_above_2^22_grid_pairs_x_queries": 2},
+    "thorough": {"queries_sharing_a_coordinate": 2000, "bandwidths_judged": 45000, "queries_judged": 35000, "assignments_judged": 450000, "degenerate_cloud_models": 1000, "periodic_models": 1300, "relation_pairs": 12000, "oas_calls_seen": 45000, "estimators_with_a_past": 1800, "metric_given_explicitly": 2500, "models_with_zero_weights": 500, "evaluations_above_2^22_grid_pairs_x_queries": 30},
 }
 RULE = (
     "case = descriptor cloud (1-4 dimensions, 30-160 points; multi-modal / anisotropic / collinear / constant coordinate / "
@@ -85,11 +85,19 @@ def gen(rng, tier, index):
         cell = span * rng.uniform(1.2, 3.0, size=d)
     M = int(rng.integers(4, 17))
     gk = gens.pick(rng, ("fps", "fps", "subset", "offsample"))
+    bigq = index % 320 == 5  # one evaluation call with n_grid^2 x n_queries above 2^22 (what a blocked evaluation would split)
+    if bigq:
+        kind = "bimodal" if "bimodal" in KINDS else kind
+        n, d = 420, int(rng.integers(1, 3))
+        D = _cloud(rng, n, d, kind)
+        cell = None
+        M, gk = int(rng.integers(66, 72)), "subset"
     if gk == "offsample":
         G = D[rng.permutation(n)[:M]] + 0.3 * D.std(axis=0).mean() * rng.normal(size=(M, d))
     else:
         G = None  # resolved in run (FPS needs the library)
-    Qq = D[rng.integers(0, n, size=6)] + 0.37 * D.std(axis=0).mean() * rng.normal(size=(6, d))
+    nq = 6 if not bigq else int(rng.integers(1000, 1100))
+    Qq = D[rng.integers(0, n, size=nq)] + 0.37 * D.std(axis=0).mean() * rng.normal(size=(nq, d))
     if kind == "constant_coord" and d > 1:
         const = np.flatnonzero(D.std(axis=0) == 0)
         Qq[:, const] = D[0, const]  # queries in the data's own hyper-plane share that coordinate exactly
@@ -115,7 +123,8 @@ def gen(rng, tier, index):
         "pg": rng.permutation(M),
         "kd": rng.integers(-2, 3, size=(n, d)),
         "kg": rng.integers(-2, 3, size=(M, d)),
-        "kq": rng.integers(-2, 3, size=(6, d)),
+        "kq": rng.integers(-2, 3, size=(nq, d)),
+        "bigq": bool(bigq),
     }
 
 
@@ -408,6 +417,8 @@ def run(case, j):
             j.judged -= 1
             raise Skip("proviso:localisation-reaches-no-other-grid-point(exception)")
         raise
+    if case.get("bigq"):
+        j.note("evaluations_above_2^22_grid_pairs_x_queries")
     if getattr(pr, "metric_route", None):
         j.note("metric_given_explicitly")
     if w is not None and np.any(w == 0):
@@ -438,7 +449,7 @@ def run(case, j):
     tol = 1e-6 * (1 + np.abs(s))
     finite = bool(np.all(np.isfinite(s)))
     rel = 0
-    if tie_free and finite:
+    if tie_free and finite and not case.get("bigq"):  # (the large evaluation is judged against the mixture only)
         def refit(D2, w2, G2, cell2=cell, cov_ref=False):
             p2 = Probe(cov_ref=cov_ref)
             return _model(case, D2, w2, G2, cell2, p2)
